@@ -145,7 +145,14 @@ def do_detect(name, pids):
         return 2
     try:
         for pid in pids:
-            rc, out = sh('./check %s quick' % pid, cwd=ROOT, timeout=3600)
+            # evidence must describe runs on /repo itself: keep the file of the unchanged tree aside while the patched tree is checked
+            ev = os.path.join(ROOT, 'evidence', '%s.json' % pid)
+            keep = open(ev, 'rb').read() if os.path.exists(ev) else None
+            try:
+                rc, out = sh('./check %s quick' % pid, cwd=ROOT, timeout=3600)
+            finally:
+                if keep is not None:
+                    open(ev, 'wb').write(keep)
             viol = [l for l in out.splitlines() if l.startswith('VIOLATION')]
             first = ''
             if viol:
